@@ -98,8 +98,8 @@ class Evaluator:
                 meths[qn] = {m_["name"] for m_ in r.get("methods", [])}
             prog._callable_names, prog._methods_of = cn, meths
         for nm in (self.calls or {}):
-            if not isinstance(nm, str) or nm in prog._callable_names:
-                continue
+            if not isinstance(nm, str) or nm in prog._callable_names or nm in getattr(self, "optional_stubs", ()):
+                continue        # (optional: the rule also models the state behind such a stub, so it may be inlined away)
             if "::" in nm:
                 cls_, mname = nm.rsplit("::", 1)
                 c_, found = cls_, False
